@@ -2,7 +2,7 @@
 #define VERIF_UTIL_H
 #include "rec.h"
 /* shard "k/N[,opt...]" */
-typedef struct { int k, n; int pure; char opts[400]; } shard_t;
+typedef struct { int k, n; int pure; char opts[4096]; } shard_t;
 shard_t shard_parse(const char *extra);
 #define MINE(sh, x) (((x) % (sh).n) == (sh).k)
 int opt_has(const shard_t *s, const char *name);
